@@ -1,4 +1,5 @@
 import FsDb.Proofs.ConcInv
+import FsDb.Proofs.SortKeys
 /-! Every step of every goroutine preserves the invariant of the small-step concurrency model. -/
 namespace FsDb.Conc
 open FsDb Sys Spec
@@ -48,6 +49,10 @@ theorem goto_inv {σ : St} {i : Nat} (h : CInv σ) (pc' : Pc)
   show TInv (σ.goto i pc') i ((σ.goto i pc').thr i)
   rw [show (σ.goto i pc').thr i = { σ.thr i with pc := pc' } from setThr_self σ i _]
   exact ⟨ht.invLe, ht.wit, hp⟩
+
+/-- the return assertion from "the witness is the returned value" -/
+theorem ret_of_wit {σ : St} {i : Nat} {th : Thread} {o : Out} (h : th.wit = some o) : PcInv σ i th (.ret o) :=
+  ⟨fun _ => h, fun ks e => ⟨ks, by rw [h, e], fun _ hk => hk⟩⟩
 
 /-- a read-only linearization point -/
 theorem witness_inv {σ : St} {i : Nat} (h : CInv σ) (pc' : Pc) (w : Out)
@@ -238,5 +243,95 @@ theorem ownOk_now {s : Sys} (i : Inv s) (tx : TxRec) (k : Key) : OwnOk s tx k (o
     have hown : s.ownLatest tx.id k = latest (s.main k) := by simp [Sys.ownLatest, Sys.txStore, hm]
     rw [hown] at this
     exact ⟨f, this, Nat.le_refl _⟩
+
+end FsDb.Conc
+
+namespace FsDb.Conc
+open FsDb Sys Spec
+
+/-! ### GetKeys: what its two list reads establish -/
+
+theorem lookupKV_filterMap (s : Sys) (tx : TxRec) (l : List Key) (k : Key) :
+    lookupKV (l.filterMap (fun k' => (ownRead s tx k').map (fun v => (k', v)))) k
+      = if k ∈ l then ownRead s tx k else none := by
+  induction l with
+  | nil => rfl
+  | cons a l ih =>
+    simp only [List.filterMap_cons]
+    cases hr : ownRead s tx a with
+    | none =>
+      simp only [Option.map_none]
+      rw [ih]
+      by_cases hka : k = a
+      · subst hka; simp [hr]
+      · simp [hka]
+    | some v =>
+      simp only [Option.map_some]
+      by_cases hka : k = a
+      · subst hka; simp [lookupKV, hr]
+      · have : ¬ a = k := fun e => hka e.symm
+        simp only [lookupKV, List.find?_cons, this, decide_false, List.mem_cons, hka, false_or] at ih ⊢
+        exact ih
+
+theorem ownRead_none_of_not_dom {s : Sys} (i : Inv s) (tx : TxRec) {k : Key} (hk : k ∉ s.dom) : ownRead s tx k = none := by
+  have hall : s.all k = [] := by
+    cases h : s.all k with
+    | nil => rfl
+    | cons a l => exact absurd (i.domAll k (by rw [h]; simp)) hk
+  unfold ownRead
+  cases tx.level <;> try rfl
+  all_goals
+    unfold Sys.ownLatest Sys.txStore
+    by_cases hm : tx.id = mainTx
+    · simp only [hm, if_true]
+      cases hl : s.main k with
+      | nil => rfl
+      | cons a l =>
+        have : a ∈ s.all k := i.main_sub_all (by rw [hl]; simp)
+        rw [hall] at this; cases this
+    · simp only [hm, if_false]
+      cases hst : s.txs tx.id with
+      | none => rfl
+      | some st =>
+        simp only []
+        cases hl : st k with
+        | nil => rfl
+        | cons a l =>
+          have : a ∈ s.all k := i.tx_sub_all hst (by rw [hl]; simp)
+          rw [hall] at this; cases this
+
+theorem kOwnOk_now {s : Sys} (i : Inv s) (tx : TxRec) :
+    KOwnOk s tx (s.dom.filterMap (fun k => (ownRead s tx k).map (fun v => (k, v)))) := by
+  intro k
+  rw [lookupKV_filterMap]
+  by_cases hk : k ∈ s.dom
+  · simp only [hk, if_true]; exact ownOk_now i tx k
+  · simp only [hk, if_false]
+    have := ownOk_now i tx k
+    rw [ownRead_none_of_not_dom i tx hk] at this
+    exact this
+
+theorem getKeys_unfold {s : Sys} {tx : TxRec} (hreg : s.regGet tx.id = some tx) :
+    s.getKeys tx.id = .keys (sortKeys (s.dom.filter (s.listed tx))) := by
+  unfold Sys.getKeys; rw [hreg]
+
+/-- after its two list reads GetKeys holds, for every key of the domain, the version the atomic model
+    reads, and every one of them that still has its content record is listed by the atomic GetKeys -/
+theorem keysOk_now {s : Sys} (i : Inv s) {tx : TxRec} {own : List (Key × Ver)}
+    (hreg : s.regGet tx.id = some tx) (ho : KOwnOk s tx own) :
+    KeysOk s (some (s.getKeys tx.id)) (s.dom.filterMap (fun k => Sys.newer (lookupKV own k) (baseRead s tx k))) [] := by
+  refine ⟨_, by rw [getKeys_unfold hreg], (fun k hk => by cases hk), ?_⟩
+  intro v hv
+  obtain ⟨k, hk, hkv⟩ := List.mem_filterMap.mp hv
+  rw [coreGet_of_own hreg (ho k)] at hkv
+  have hvall : v ∈ s.all k := coreGet_mem i tx k hkv
+  have hb := i.bounds k v hvall
+  refine ⟨hb.2.2.1, ?_⟩
+  intro hs
+  rw [mem_sortKeys, List.mem_filter]
+  rw [hb.2.2.2]
+  refine ⟨hk, ?_⟩
+  simp only [Sys.listed, hkv]
+  exact hs
 
 end FsDb.Conc
